@@ -47,7 +47,7 @@ import (
 var c *lib.Check
 
 func configs(thorough bool) []HistCfg {
-	n, rots := 8, []int{0, 5, 9}
+	n, rots := 8, []int{0, 5}
 	if thorough {
 		n, rots = 12, []int{0, 2, 4, 5, 7, 9, 11}
 	}
@@ -107,7 +107,11 @@ func main() {
 	c.Set("accepted_forged", cnt.forged)
 	c.Set("session_first_steps", cnt.sessions)
 	c.Set("equivocations", cnt.equiv)
-	c.Sample(map[string]any{"history": fmt.Sprint(cfgs[0]), "trusted": "H:3", "response": "honest DualProof(3,6)", "alteration": "Target.BlRoot=pool7 + ConsistencyProof.drop0", "expected": "rejected"})
+	c.Sample(map[string]any{"part": "store", "history": fmt.Sprint(cfgs[0]), "trusted": "H:3", "response": "honest DualProof(3,6) of H", "alteration": "Target.BlRoot=pool7 + ConsistencyProof.drop0", "outcome": "rejected"})
+	c.Sample(map[string]any{"part": "store", "history": fmt.Sprint(cfgs[len(cfgs)/2]), "trusted": "H:2", "response": "whole DualProof(2,5) of fork F4 (diverges after tx 4)", "outcome": "accepted, legitimate: the fork lies after the trusted transaction"})
+	c.Sample(map[string]any{"part": "store", "history": fmt.Sprint(cfgs[0]), "trusted": "H:5", "response": "whole DualProof(2,5) of G2 (tx 2 rewritten, everything after re-chained)", "outcome": "rejected"})
+	c.Sample(map[string]any{"part": "raw", "api": "VerifyLinearAdvanceProof", "claim": "(start=1,end=4,Alh(F0:4),root(H,5),size=5)", "proof": "honest proof for (1,4,5) with InclusionProofs[1] dropped", "outcome": "rejected"})
+	c.Sample(map[string]any{"part": "client", "call": "VerifiedGetAt(b,2) with trusted tx 4", "alteration": "verifiableTx.dualProof.sourceTxHeader.eH=pool3", "outcome": "rejected (ErrCorruptedData)"})
 	c.Finish("every (history, trusted s, proven t) x every single alteration x reduced pairs x whole-world sessions; raw verifier claims; client layer: every single protobuf alteration. "+
 		"distinct = distinct (history,s,t) base responses", !c.Expired())
 }
